@@ -150,6 +150,9 @@ func genFull(r *rand.Rand, tags map[string]bool) []hx.T {
 	return ops
 }
 
+// the four ways of running a chain: waterfall.Sche, the Builder, Simple, ExecAndWait
+var runnerOps = []string{"OChain", "OChainB", "OSimple", "OWait"}
+
 // random chain script: chains, plain closures in between, steps, environment completions in
 // generated orders (including before the task ran and twice), sometimes a Stop
 func genChains(r *rand.Rand, tags map[string]bool) []hx.T {
@@ -159,7 +162,9 @@ func genChains(r *rand.Rand, tags map[string]bool) []hx.T {
 	var laters []lk
 	for c := 0; c < nch; c++ {
 		tasks := randChain(r, 5, r.Intn(4) == 0, tags)
-		ops = append(ops, hx.C("OChain", int64(c), tasks))
+		decl := runnerOps[r.Intn(len(runnerOps))]
+		tags["runner-"+decl] = true
+		ops = append(ops, hx.C(decl, int64(c), tasks))
 		for i, t := range tasks {
 			if len(t.(hx.T).Args[1].([]any)) > 0 {
 				laters = append(laters, lk{int64(c), int64(i)})
@@ -191,8 +196,15 @@ func genChains(r *rand.Rand, tags map[string]bool) []hx.T {
 			ops = append(ops, hx.C("OFire", l.c, l.i, int64(r.Intn(5)/4)))
 		case p < 93:
 			ops = append(ops, hx.C("OPost", int64(r.Intn(2)), kind(r, tags)))
-		default:
+		case p < 96:
 			ops = append(ops, hx.C("OFire", int64(r.Intn(nch+1)), int64(r.Intn(6)), int64(0)))
+		default:
+			tags["registry"] = true
+			if r.Intn(3) == 0 {
+				ops = append(ops, hx.C("OMgrDel", int64(r.Intn(3))))
+			} else {
+				ops = append(ops, hx.C("OMgrGet", int64(r.Intn(3))))
+			}
 		}
 	}
 	// usually complete everything so that "exactly once" is exercised
@@ -290,18 +302,40 @@ func enumChains(L int, emit func([]hx.T, []string)) {
 				tasks[i] = behAlphabet(int64(10 * (i + 1)))[k]
 				tg[behNames[k]] = true
 			}
-			ops := []hx.T{hx.C("OChain", 0, tasks), hx.C("OPost", 0, "KOk")}
-			for round := 0; round <= L+1; round++ {
-				ops = append(ops, hx.C("OStep"), hx.C("OStep"))
-				for i := 0; i < L; i++ {
-					ops = append(ops, hx.C("OFire", 0, int64(i), 0))
+			for _, decl := range runnerOps {
+				ops := []hx.T{hx.C(decl, 0, tasks), hx.C("OPost", 0, "KOk")}
+				for round := 0; round <= L+1; round++ {
+					ops = append(ops, hx.C("OStep"), hx.C("OStep"))
+					for i := 0; i < L; i++ {
+						ops = append(ops, hx.C("OFire", 0, int64(i), 0))
+					}
 				}
+				tg["runner-"+decl] = true
+				emit(ops, tagList(tg))
+				delete(tg, "runner-"+decl)
 			}
-			emit(ops, tagList(tg))
 			return
 		}
 		for k := range behNames {
 			idx[d] = k
+			rec(d + 1)
+		}
+	}
+	rec(0)
+}
+
+// every Get/Del sequence of length L over two names
+func enumMgr(L int, emit func([]hx.T)) {
+	alpha := []hx.T{hx.C("OMgrGet", 0), hx.C("OMgrGet", 1), hx.C("OMgrDel", 0), hx.C("OMgrDel", 1)}
+	cur := make([]hx.T, L)
+	var rec func(d int)
+	rec = func(d int) {
+		if d == L {
+			emit(append([]hx.T{}, cur...))
+			return
+		}
+		for _, a := range alpha {
+			cur[d] = a
 			rec(d + 1)
 		}
 	}
@@ -357,9 +391,20 @@ func Run(cfg *hx.Config) error {
 			emit(fmt.Sprintf("exhaustive-chain-%d", L), ops, tg)
 		})
 	}
+	mdepth := 3
+	if thorough {
+		mdepth = 5
+	}
+	for L := 1; L <= mdepth; L++ {
+		enumMgr(L, func(ops []hx.T) {
+			emit(fmt.Sprintf("exhaustive-registry-%d", L), ops, map[string]bool{"registry": true})
+		})
+	}
 	// deterministic burst: consumer gated, one goroutine posts capacity+200 closures
 	emit("burst", burst(1, capQ+200), map[string]bool{"burst": true})
 	emit("burst", burst(3, capQ+200), map[string]bool{"burst": true})
+	// RunService with slow closures (heavy-frame accounting) and detailed perf logging
+	emit("runservice-slow", []hx.T{hx.C("OConcN", 4, 3, 40)}, map[string]bool{"slow-closures": true})
 	nFull, nConc, nBig := 12, 40, 1
 	if thorough {
 		nFull, nConc, nBig = 120, 400, 3
